@@ -457,6 +457,10 @@ func (o *oracles) compareRestart(st *manager.VerifState, v *ViewSig, g map[strin
 			if fmt.Sprint(x.Convs) != fmt.Sprint(y.Convs) {
 				return fmt.Sprintf("tag %s: converters %v, acknowledged %v", n, x.Convs, y.Convs)
 			}
+			if fmt.Sprint(x.RefBy) != fmt.Sprint(y.RefBy) {
+				// what a tag is shown as (referenced or not) and what protects it from being deleted
+				return fmt.Sprintf("tag %s: referenced by %v, before the restart by %v", n, x.RefBy, y.RefBy)
+			}
 		}
 		if st.Config != m.state.Config {
 			return fmt.Sprintf("config %+v, acknowledged %+v", st.Config, m.state.Config)
@@ -476,6 +480,8 @@ func (o *oracles) compareRestart(st *manager.VerifState, v *ViewSig, g map[strin
 			switch {
 			case strings.Contains(mb, "converters"):
 				kind = "converters"
+			case strings.Contains(mb, "referenced by"):
+				kind = "referenced"
 			case strings.Contains(mb, "config"), strings.Contains(mb, "webhooks"), strings.Contains(mb, "endpoints"):
 				kind = "settings"
 			case strings.Contains(mb, "is gone"):
